@@ -57,7 +57,7 @@ Styles == {[clead |-> ls.lead, ctrail |-> ls.sep[1], finalnl |-> nl, lines |-> <
 FileMols == {m \in SdfMols : Len(m.atoms) = 1 /\ m.atoms[1].z = 17 /\ m.atoms[1].c[1] = m.atoms[1].c[2] /\ m.atoms[1].c[2] = m.atoms[1].c[3]}
             \cup {m \in SdfMols : Len(m.atoms) = 2 /\ m.atoms[1] = m.atoms[2]}
 FileSeqs == {<<a>> : a \in FileMols} \cup {<<a, b>> : a \in FileMols, b \in FileMols}
-FileStyles == {[term |-> TRUE, data |-> TRUE], [term |-> TRUE, data |-> FALSE], [term |-> FALSE, data |-> TRUE], [term |-> FALSE, data |-> FALSE]}
+FileStyles == {[term |-> tm, data |-> dt, chg |-> cg] : tm \in BOOLEAN, dt \in BOOLEAN, cg \in BOOLEAN}
 Names == << <<97>>, <<98, 32, 99>> >>
 Comment == <<99, 111, 109, 109, 101, 110, 116, 32, 49>>
 
